@@ -39,6 +39,8 @@ std::uint64_t vp_thread_id() noexcept { return 0; }
 void vp_sync_point() noexcept {}
 void vp_hb_write(std::uint32_t) noexcept {}
 void vp_hb_read(std::uint32_t) noexcept {}
+void vp_hb_sync_release(std::uint32_t) noexcept {}
+void vp_hb_sync_acquire(std::uint32_t) noexcept {}
 int vp_yield_to_pending() noexcept { return 0; }
 void vp_native_begin() { load(); }
 void vp_native_end() {
